@@ -101,12 +101,12 @@ func queueExplorer(depth int) *tt.Explorer {
 		ZeroProj: queueProj{Has: make([]bool, hasN)},
 		Ops: func(path []tt.Op) []tt.Op {
 			if len(path) == 0 {
-				return []tt.Op{op("newq"), op("newl", 1), op("newl", 2)}
+				return []tt.Op{op("newq"), op("newl", 1), op("newl", 0)}
 			}
 			if len(path) > depth {
 				return nil
 			}
-			return []tt.Op{op("enq", 1), op("enq", 2), op("enq", 3), op("deq"), op("clear")}
+			return []tt.Op{op("enq", 1), op("enq", 2), op("enq", 0), op("deq"), op("clear")}
 		},
 		Term:       func(path []tt.Op) []tt.Op { return []tt.Op{op("drain")} },
 		SplitDepth: 3,
@@ -143,7 +143,7 @@ func queueLinear(cfg Config, file string, runs, steps int) (int, error) {
 			case x < 2:
 				return op("clear"), true
 			case (phase == 0 && x < 70) || (phase == 1 && x < 30):
-				return op("enq", 1+rng.Intn(50)), true
+				return op("enq", rng.Intn(50)), true
 			default:
 				return op("deq"), true
 			}
